@@ -32,6 +32,7 @@ theorem wrapForR {s0 : State} {m : EvalM RVal} (hm : Tr s0 m) (h g : State → S
       match m s1 with
       | .ok v s2 => .ok v (h s1 s2)
       | .err v msg p t s2 => .err v msg p t (g s1 s2)
+      | .fail (.syn e) s2 => .fail (.syn e) (g s1 s2)
       | other => other) := by
   refine ⟨fun s1 hs1 => ?_⟩
   have h' := hm.run s1 hs1
@@ -39,7 +40,12 @@ theorem wrapForR {s0 : State} {m : EvalM RVal} (hm : Tr s0 m) (h g : State → S
   cases m s1 with
   | ok a s2 => exact fun h' => h'.geq (hh s1 s2)
   | err v msg p t s2 => exact fun h' => h'.geq (hg s1 s2)
-  | fail f s2 => exact id
+  | fail f s2 =>
+    cases f with
+    | syn e => exact fun h' hf => (h' hf).geq (hg s1 s2)
+    | oof => exact id
+    | unsupported w => exact id
+    | host k => exact id
 
 /-- the finally stage of a block: one entry and one finally run at `pos` cancel -/
 theorem Post.block {α} {s0 s s1 : State} {pos : Pos} {o : Out α}
